@@ -89,7 +89,9 @@ func mintBlock(w *World, ctx sdk.Context, denom string, ns int64) (*big.Int, str
 func TestC02(t *testing.T) {
 	st := StatsFor("C02")
 	rapid.Check(t, func(t *rapid.T) {
-		cfg := GenMinterCfg(t, 6, 300, 36)
+		// (up to 6 periods; one configuration in five has up to 14, so that a single block - the twin's, or the
+		// first one after a long pause - can pass a dozen period ends at once)
+		cfg := GenMinterCfg(t, []int{6, 6, 6, 6, 14}[rapid.IntRange(0, 4).Draw(t, "maxPeriods")], 300, 36)
 		params, sched := cfg.Build()
 		if err := params.Validate(); err != nil {
 			st.Class("generator_rejected_by_validate")
